@@ -145,8 +145,9 @@ type appRec struct {
 
 type Event struct {
 	kind string
-	args []Value
+	args []Value // by value: what a pointer argument pointed to at the time
 	res  []Value
+	raw  []Value // the arguments as passed (pointers as pointers), for evptr
 }
 
 type State struct {
@@ -444,10 +445,10 @@ func iteValue(c *Term, a, b Value) (Value, bool) {
 			return x, true
 		}
 		// nil merged with an object of a symbolic region: nil is the object of identity 0
-		if ok && x.cell == nil && y.cell != nil && y.sym != nil && len(y.path) == 0 {
+		if ok && x.cell == nil && y.cell != nil && y.sym != nil && len(y.path) == 0 && strings.HasPrefix(y.cell.name, "region$") {
 			return &Ptr{cell: y.cell, sym: mkIte(c, mkInt(0), y.sym), mayNil: true}, true
 		}
-		if ok && y.cell == nil && x.cell != nil && x.sym != nil && len(x.path) == 0 {
+		if ok && y.cell == nil && x.cell != nil && x.sym != nil && len(x.path) == 0 && strings.HasPrefix(x.cell.name, "region$") {
 			return &Ptr{cell: x.cell, sym: mkIte(c, x.sym, mkInt(0)), mayNil: true}, true
 		}
 		if ok && x.cell != nil && x.cell == y.cell && pathEq(x.path, y.path) && x.sym != nil && y.sym != nil {
